@@ -778,6 +778,8 @@ def handleMetadataData (m : M) (k i len : Nat) (good : Bool) : M :=
     -- InfoDownloader.GotBlock
     if i ≥ d.nb then onSt (closePeerM m k) fun s => { s with mayStartI := !s.info }
     else if len ≠ blockSizeOf d.size i then onSt (closePeerM m k) fun s => { s with mayStartI := !s.info }
+    -- a second answer for a block is an error like the two above (fix for finding C17-F6)
+    else if (d.blocks.getD i none).isSome then onSt (closePeerM m k) fun s => { s with mayStartI := !s.info }
     else
       let d' : IDl := { d with pending := d.pending - 1, blocks := d.blocks.set i (some good) }
       let m := onSt m fun s => { s with idls := s.idls.map fun x => if x.k = k then d' else x }
